@@ -193,7 +193,6 @@ func originOf(pv *ssax.Prov, v ssa.Value) sliceOrigin {
 // all three accumulated together (appended in the same place from one response), or all three built from the same
 // index of the original request.
 func checkParallelSlices(c *core.Ctx, rule string) {
-	pv := &ssax.Prov{}
 	var fns []*ssa.Function
 	for _, ctor := range append(append([]string{}, inScopeCtors...), "Locked") {
 		role, err := resolveOrca(c, ctor)
@@ -209,6 +208,11 @@ func checkParallelSlices(c *core.Ctx, rule string) {
 	for _, fn := range pkgFuncs(c, relBatched) {
 		fns = append(fns, fn)
 	}
+	checkParallelSlicesIn(c, rule, fns)
+}
+
+func checkParallelSlicesIn(c *core.Ctx, rule string, fns []*ssa.Function) {
+	pv := &ssax.Prov{}
 	n := 0
 	for _, fn := range fns {
 		counts := map[string]int{}
@@ -253,6 +257,74 @@ func checkParallelSlices(c *core.Ctx, rule string) {
 					}
 					if len(oo.appends) != len(ko.appends) || len(qo.appends) != len(ko.appends) {
 						bad = append(bad, "Keys, Opaques and Quiet are appended to in a different number of places")
+					}
+					// the three elements appended in one place come from the same object (one response, one tracker entry)
+					rootOf := func(call *ssa.Call) string {
+						var roots []string
+						for _, s := range pv.Sources(call.Call.Args[1], "[]") {
+							if s.Kind == "const" || s.Kind == "zero" {
+								continue
+							}
+							roots = append(roots, fmt.Sprintf("%s@%p", s.Kind, s.V))
+						}
+						return strings.Join(uniq(roots), ",")
+					}
+					// ... and, where visible, from the same variable: a struct kept from another iteration has the same
+					// provenance but is a different entry
+					baseOf := func(call *ssa.Call) ssa.Value {
+						sl, ok := call.Call.Args[1].(*ssa.Slice)
+						if !ok {
+							return nil
+						}
+						al, ok := sl.X.(*ssa.Alloc)
+						if !ok {
+							return nil
+						}
+						for _, r := range *al.Referrers() {
+							ia, ok := r.(*ssa.IndexAddr)
+							if !ok {
+								continue
+							}
+							for _, st := range ssax.StoresTo(ia) {
+								v := ssax.Unwrap(st.Val)
+								switch x := v.(type) {
+								case *ssa.Field:
+									if u, ok := x.X.(*ssa.UnOp); ok {
+										return u.X
+									}
+									return x.X
+								case *ssa.UnOp:
+									if fa, ok := x.X.(*ssa.FieldAddr); ok {
+										return fa.X
+									}
+								}
+							}
+						}
+						return nil
+					}
+					for _, ka := range ko.appends {
+						kb := baseOf(ka)
+						for _, group := range [][]*ssa.Call{oo.appends, qo.appends} {
+							for _, oa := range group {
+								if oa.Block() == ka.Block() {
+									if ob := baseOf(oa); ob != nil && kb != nil && ob != kb {
+										bad = append(bad, fmt.Sprintf("at %s the key is taken from variable %s but the %s appended with it from variable %s", c.P.Pos(ka.Pos()), kb.Name(), map[bool]string{true: "opaque", false: "quiet flag"}[types.TypeString(oa.Type(), nil) == "[]uint32"], ob.Name()))
+									}
+								}
+							}
+						}
+					}
+					for _, ka := range ko.appends {
+						kr := rootOf(ka)
+						for _, group := range [][]*ssa.Call{oo.appends, qo.appends} {
+							for _, oa := range group {
+								if oa.Block() == ka.Block() {
+									if or := rootOf(oa); or != "" && kr != "" && or != kr {
+										bad = append(bad, fmt.Sprintf("at %s the key and the %s appended with it come from different objects: the lists are the same length but describe different keys", c.P.Pos(ka.Pos()), map[bool]string{true: "opaque", false: "quiet flag"}[types.TypeString(oa.Type(), nil) == "[]uint32"]))
+									}
+								}
+							}
+						}
 					}
 				case "lit":
 				case "other":
